@@ -30,11 +30,11 @@ pub fn spec(prop: &str, quick: bool) -> Option<CheckSpec> {
             rule: "enumerated short/extended deliveries and field values per base triple (run index = base triple), plus seeded structure-aware and raw mutations; every case through hbs_lms::verify, VerifyingKey+Signature::from_bytes, VerifyingKey+VerifierSignature::from_ref; non-trivial = the fault changed bytes and the outcome was classified; distinct = (shape, fault-kind sequence) hash",
         },
         "C08" => CheckSpec { property: "C08", level: "exploration", parts: vec![p("keygen", 6000, 40000), p("tall", crate::gen2::tall_space(true), crate::gen2::tall_space(false))], exhaustive_note: None, rule: "seeds (zero, all-ones, single-bit, PRNG) x parameter lists (1..8 levels, all w, heights up to 10 on top, up to 25 below) x 8 hash instantiations x aux {none, assorted sizes}; every fourth run is SHA-256/32 with heights >= 5 and is compared with the files the hash-sigs binary writes for the same seed; non-trivial = a build-limit or aux 'fault' fired or the binary was consulted (counted via fault_fired/probes); distinct = (shape, op kinds) hash" },
-        "C09" => CheckSpec { property: "C09", level: "exploration", parts: vec![p("purity", 600, 6000), p("aux", 400, 3000), p("purity-proc", 48, 256)], exhaustive_note: None, rule: "3-6 keys per run with interleaved keygen/sign/load/lifetime ops; observed calls re-executed immediately, at the end of the run, through the other API, with aux, and (every 8th run) in a fresh child process; byte equality; plus purity-proc: long histories (about 1.5k / 7k library calls) each executed in its own fresh child process with every observed call repeated later in that process, so that any dependence on process-wide state replays exactly; plus the aux profile, in which every aux-assisted call is compared with the same call without aux (outputs must not depend on the cache file's content); non-trivial = at least one re-execution context or aux fault fired; distinct = (shapes, op kinds) hash" },
+        "C09" => CheckSpec { property: "C09", level: "exploration", parts: vec![p("purity", 600, 6000), p("aux", 400, 3000), p("purity-proc", 48, 256), p("aux-proc", 64, 400)], exhaustive_note: None, rule: "3-6 keys per run with interleaved keygen/sign/load/lifetime ops; observed calls re-executed immediately, at the end of the run, through the other API, with aux, and (every 8th run) in a fresh child process; byte equality; plus purity-proc: long histories (about 1.5k / 7k library calls) each executed in its own fresh child process with every observed call repeated later in that process, so that any dependence on process-wide state replays exactly; plus the aux profile, in which every aux-assisted call is compared with the same call without aux (outputs must not depend on the cache file's content); non-trivial = at least one re-execution context or aux fault fired; distinct = (shapes, op kinds) hash" },
         "C10" => CheckSpec {
             property: "C10",
             level: "fault_enumeration",
-            parts: vec![p("aux-enum", crate::gen2::aux_enum_space(quick), crate::gen2::aux_enum_space(false)), p("aux", 2500, 15000), p("tall", crate::gen2::tall_space(true), crate::gen2::tall_space(false))],
+            parts: vec![p("aux-enum", crate::gen2::aux_enum_space(quick), crate::gen2::aux_enum_space(false)), p("aux", 2500, 15000), p("aux-proc", 64, 400), p("tall", crate::gen2::tall_space(true), crate::gen2::tall_space(false))],
             exhaustive_note: Some("on a buffer freshly filled by keygen: every single-bit flip, every truncation length 0..len, padding by 1..64 bytes, every value of each level-word byte — each followed by sign (and every fourth by keygen) with the faulted buffer, compared with the same call without aux"),
             rule: "enumerated storage faults on the aux cache file (chunks by run index) plus seeded sequences of keygen/sign/aux-fault ops over keys with equal shape and different seeds; non-trivial = the fault changed the buffer and the transparency/layout/meter oracles ran; distinct = (shape, op kinds, fault set) hash",
         },
